@@ -4,6 +4,7 @@ import ast
 from ..astutil import (walk_shallow, dotted, call_attr, short, src, stmt_of, names_loaded, is_const, enclosing,
                        compare_parts, strip_not, const, bool_operands)
 from ..loader import AnalysisError
+from ..report import Sub
 from .. import rules as T
 
 ID = 'C03'
@@ -41,6 +42,10 @@ def check(P, R):
     check_handle(P, R)
     check_cast(P, R)
     check_closeiter(P, R)
+    check_status_setter(P, R)
+    # static_file announces the slice length as Content-Length: the slice iterator must deliver exactly that many bytes (premise shared with C17)
+    from . import c17
+    c17.check_stream(P, Sub(R, default='C03.e', why='a Content-Length set by the framework equals the number of bytes returned (static_file, 206)'))
     # the Content-Length that _cast adds is written into the live response's own header dictionary: applying a returned / raised response
     # must copy its headers, not hand its dictionary over (a shared error object would keep the length of an earlier page)
     from . import c09
@@ -332,6 +337,16 @@ def check_cast(P, R):
                 det = '' if ok else (f'Content-Length is len({x}) but what is returned is `{short(rv)}`: if {x} is text, its length in '
                                      f'characters differs from the number of bytes sent (non-ASCII bodies)')
         R.ob('C03.e', f, c, ok, detail=det, why='a Content-Length set by the framework equals the number of bytes returned')
+    # ---- c (part): every step that runs handler code while peeking (iter(out), next(iout)) sits in the try that turns failures into responses
+    from .c17 import _caught
+    peeks = [c for c in walk_shallow(f.node) if isinstance(c, ast.Call) and dotted(c.func) in ('iter', 'next') and c.args]
+    R.require(peeks, '_cast: iter()/next() of the handler iterable not found')
+    for c in peeks:
+        ok = _caught(c, {'Exception', 'BaseException'}) and _caught(c, {'HTTPResponse', 'Exception', 'BaseException'})
+        R.ob('C03.c', f, c, ok, text=f'{short(c)} inside the try that converts failures', detail='' if ok else
+             f'`{short(c)}` runs handler code outside the try/except of _cast: an exception (or a raised HTTP response) of a generator that first yielded '
+             f'empty chunks escapes _cast instead of becoming the 500 / the raised response',
+             why='handler failures before the first body chunk become a 500 response instead of escaping', key_extra='peek-captured')
     # ---- g (part): close callback = getattr(out, 'close') of the consumed iterable
     ci = [c for c in walk_shallow(f.node) if isinstance(c, ast.Call) and dotted(c.func) == '_closeiter']
     R.require(ci, '_cast: _closeiter not used')
@@ -406,3 +421,52 @@ def check_closeiter(P, R):
     R.ob('C03.g', it, it.node, ok, text='__iter__ yields from the wrapped iterator', detail='' if ok else '__iter__ does not iterate the wrapped iterator', key_extra='iter')
     ok = any('close_callbacks' in src(x) for x in ast.walk(cl.node)) and any(isinstance(x, ast.Call) and isinstance(x.func, ast.Name) for x in ast.walk(cl.node))
     R.ob('C03.g', cl, cl.node, ok, text='_closeiter.close calls every callback', detail='' if ok else 'close() does not call the callbacks')
+
+
+def check_status_setter(P, R):
+    """well-formed status line: a status given as text is accepted only when it has a reason phrase (a separator after the code)"""
+    f = P.func('ombott.response:BaseResponse.status#2')
+    g, rd = f.cfg, f.rd
+    st_par = f.params[1]
+    stores = [st for st in walk_shallow(f.node) if isinstance(st, ast.Assign) and any(dotted(t) == f'{f.params[0]}._status_line' for t in st.targets)]
+    R.require(stores, 'status setter: store of _status_line not found')
+    int_tests = [n for n in g.nodes if n.kind == 'test' and any(isinstance(c, ast.Call) and dotted(c.func) == 'isinstance' and len(c.args) == 2
+                 and src(c.args[0]) == st_par and 'int' in src(c.args[1]) for c in ast.walk(n.ast))]
+    if not int_tests:
+        R.undecided('C03.a', f, f.node, 'status setter', 'no `isinstance(status, int)` split between numeric codes and status lines')
+        return
+
+    def has_sep_test(n):
+        for x in ast.walk(n.ast):
+            if isinstance(x, ast.Compare) and len(x.ops) == 1 and isinstance(x.ops[0], ast.In) and is_const(x.left, ' '):
+                return 'true'
+            if isinstance(x, ast.Compare) and len(x.ops) == 1 and isinstance(x.ops[0], ast.NotIn) and is_const(x.left, ' '):
+                return 'false'
+        # truth of the separator / reason part of `<text>.partition(' ')`
+        nm = n.ast.operand if isinstance(n.ast, ast.UnaryOp) and isinstance(n.ast.op, ast.Not) else n.ast
+        if isinstance(nm, ast.Name):
+            for d in rd.at(n, nm.id):
+                v = getattr(d.stmt, 'value', None)
+                tg = d.stmt.targets[0] if isinstance(d.stmt, ast.Assign) else None
+                if isinstance(v, ast.Call) and call_attr(v) in ('partition', 'rpartition') and v.args and is_const(v.args[0], ' ') \
+                        and isinstance(tg, ast.Tuple) and len(tg.elts) == 3 and any(isinstance(e, ast.Name) and e.id == nm.id for e in tg.elts[1:]):
+                    return 'false' if nm is not n.ast else 'true'
+        return None
+
+    seps = [(n, has_sep_test(n)) for n in g.nodes if n.kind == 'test' and n.ast is not None and has_sep_test(n)]
+    passed = [m for (n, lab) in seps for m in T.succ_by_label(n, lab)]
+    for it in int_tests:
+        neg = isinstance(it.ast, ast.UnaryOp) and isinstance(it.ast.op, ast.Not)
+        text_side = T.succ_by_label(it, 'true' if neg else 'false')
+        for st in stores:
+            sn = g.node_of_stmt(st)[0]
+            leak = any(s_ is sn or g.can_reach(s_, sn, avoid_nodes=passed) for s_ in text_side if s_ not in passed)
+            other = any(isinstance(c, ast.Call) and (dotted(c.func) or '').startswith('re.') or call_attr(c) in ('match', 'fullmatch', 'search')
+                        for c in walk_shallow(f.node) if isinstance(c, ast.Call))
+            if leak and other:
+                R.undecided('C03.a', f, st, 'status setter', 'the status text is validated by a pattern, not by the separator test')
+                continue
+            R.ob('C03.a', f, st, not leak, text='a textual status reaches the status line only with a reason phrase (separator present)', detail='' if not leak else
+                 'a status given as text is stored as the status line without having been required to contain a separator: `response.status = "404"` '
+                 'makes start_response receive the status line `404` (no reason phrase) instead of failing as a 500',
+                 why='start_response is called with a well-formed status line', key_extra='status-reason')
